@@ -542,7 +542,13 @@ pub fn run(mut rep: Report) -> i32 {
                 let verdict = judge(&obs);
                 total_forwards += verdict.forwards as u64;
                 if !obs.setup_ok {
-                    rep.machinery_error(format!("C23 setup phase did not bring all sessions into live mode (script {si}, subscribe mode {sub})"));
+                    // the setup is an honest, fault-free sync phase of four sessions on E-TASK
+                    // (deterministic): a session that does not reach live mode is the subject's doing
+                    rep.violation(
+                        "setup/session-did-not-reach-live-mode".to_string(),
+                        format!("four honest sessions with empty stores (consumer subscribed {}): not every session reached live mode; script {si}", SUB_TEXT[sub]),
+                        json!({"part": "setup", "script": si, "subscribe_mode": sub}),
+                    );
                 }
                 rep.state(&(&obs.io, &obs.consumer_ops, &obs.ends));
                 rep.outcome(&(&obs.io, &obs.accepted, &obs.consumer_ops, &obs.ends));
